@@ -24,13 +24,21 @@ type tcpipPseudoHeader interface {
 }
 
 func (ip *IPv4) pseudoheaderChecksum() (csum uint32, err error) {
-	if err := ip.AddressTo4(); err != nil {
-		return 0, err
+	// Convert into local copies instead of calling ip.AddressTo4(), which
+	// stores the converted addresses back into the layer: this is also called
+	// from VerifyChecksum, which must not write to a (possibly shared) layer.
+	src, err := checkIPv4Address(ip.SrcIP)
+	if err != nil {
+		return 0, fmt.Errorf("Invalid source IPv4 address (%s)", err)
 	}
-	csum += (uint32(ip.SrcIP[0]) + uint32(ip.SrcIP[2])) << 8
-	csum += uint32(ip.SrcIP[1]) + uint32(ip.SrcIP[3])
-	csum += (uint32(ip.DstIP[0]) + uint32(ip.DstIP[2])) << 8
-	csum += uint32(ip.DstIP[1]) + uint32(ip.DstIP[3])
+	dst, err := checkIPv4Address(ip.DstIP)
+	if err != nil {
+		return 0, fmt.Errorf("Invalid destination IPv4 address (%s)", err)
+	}
+	csum += (uint32(src[0]) + uint32(src[2])) << 8
+	csum += uint32(src[1]) + uint32(src[3])
+	csum += (uint32(dst[0]) + uint32(dst[2])) << 8
+	csum += uint32(dst[1]) + uint32(dst[3])
 	return csum, nil
 }
 
